@@ -879,9 +879,18 @@ func c10(r *core.Run) {
 	r.Check("D3/K3/next-read-before-unlink", "while scanning a slot list, an element's successor is read before the element is unlinked (list.Remove clears the links; reading Next afterwards ends the scan and strands the rest of the slot)", func(o *core.O) {
 		isRemove := core.CallTo("(*container/list.List).Remove")
 		n := 0
-		for _, f := range p.PkgFuncs(f10CollPkg) {
+		for _, f := range c10Funcs(p, f10CollPkg) {
 			rms := core.Calls(f, isRemove)
-			if len(rms) == 0 || !strings.Contains(core.FuncName(f), "TimingWheel") {
+			if len(rms) == 0 {
+				continue
+			}
+			// a slot scan: a method/closure of the wheel, or a helper that walks timing entries
+			// (asserts list values to timingEntry) — the role the tick handler's scan is found by
+			walksEntries := len(core.Instrs(f, func(in ssa.Instruction) bool {
+				ta, ok := in.(*ssa.TypeAssert)
+				return ok && strings.HasSuffix(ta.AssertedType.String(), ".timingEntry")
+			})) > 0
+			if !strings.Contains(core.FuncName(f), "TimingWheel") && !walksEntries {
 				continue
 			}
 			r.Fn(core.FuncName(f))
@@ -939,8 +948,11 @@ func c10(r *core.Run) {
 		return names(v)
 	}
 	r.Check("D4/K7/move-steps-formula", "the move handler re-schedules by the same whole number of ticks as the placement function: with steps = d/I (integer division of the two durations) and ahead = (pos − tickedPos + N − 1) mod N + 1, the values it stores are circle = (steps − ahead)/N and diff = (steps − ahead) mod N", func(o *core.O) {
+		if !need(o) {
+			return
+		}
 		h := t.handler["moveChannel"]
-		if !need(o) || !o.Need(h != nil, "handler of moveChannel") {
+		if !o.Need(h != nil, "handler of moveChannel") {
 			return
 		}
 		r.Fn(core.FuncName(h))
